@@ -172,7 +172,7 @@ func c01Prop(c *Ctx) {
 		return nil
 	})
 	files := gorootFiles(60000)
-	for i := 0; i < c.N(150) && len(files) > 0; i++ {
+	for i := 0; i < c.N(70) && len(files) > 0; i++ {
 		if b, err := os.ReadFile(files[c.Rng.Intn(len(files))]); err == nil {
 			srcs = append(srcs, string(b))
 		}
